@@ -225,7 +225,7 @@ func (d *Decoder) stepHelper_acceptKV(t string, majorByte byte, tokenSlot *Token
 		// JSON in general doesn't differentiate.  But we usually try to anyway.
 		// (If this results in us yielding an int, and an obj.Unmarshaller is filling a float,
 		// it's the Unmarshaller responsibility to decide to cast that.)
-		tokenSlot.Type, tokenSlot.Int, tokenSlot.Float64, err = d.decodeNumber(majorByte)
+		tokenSlot.Type, tokenSlot.Int, tokenSlot.Uint, tokenSlot.Float64, err = d.decodeNumber(majorByte)
 		return true, err
 	default:
 		return true, fmt.Errorf("invalid char while expecting start of %s: %s", t, byteToString(majorByte))
